@@ -204,20 +204,25 @@ SPEC = dict(
     lake_targets=["SimbodyModel.Gen.Statics"],
     gen=gen,
     flow="harness_first",
-    # --n = number of repeat scenarios = number of interleave scenarios; fork scenarios = n/4 + 2
-    n=dict(quick=40, thorough=1500),
+    # --n = number of repeat scenarios = number of interleave scenarios; fork scenarios = n/4 + 2; aux scenarios = n/4 + 3
+    n=dict(quick=40, thorough=1000),
     rtol=0.0, atol=0.0,
     rule="scenario kinds: repeat (same simulation twice in one process with nothing / unrelated simulations / geometry, un-seeded "
          "Random, optimizer, XML, root finder, graph maker in between), interleave (three live simulations advanced report by report "
-         "in a random schedule vs each one alone), fork (fresh process: simulation first vs after unrelated work); 5 models (pendulum, "
+         "in a random schedule vs each one alone), fork (fresh process: simulation first vs after unrelated work), aux (Assembler with the "
+         "default calcGoal() and its shared static Vector, IPOPT, seeded CMA-ES: same call before/after another instance + unrelated work); 5 models (pendulum, "
          "free tree with springs, rod-constrained loop, compliant contact with ContactTrackerSubsystem, HuntCrossleyForce on "
          "GeneralContactSubsystem) x 8 integrators (RKMerson, RKFeldberg, RK3, RK2, Verlet, ExplicitEuler, CPodes, SemiExplicitEuler2), "
-         "force evaluation single-threaded; every report-time state compared bit for bit; quick covers all 40 model x integrator pairs "
+         "force evaluation single-threaded; at every report time t, y=(q,u,z) and udot (realized through Acceleration) compared bit for bit; "
+         "floors: P progressed (every scenario must get past t=0) and P dead_share <= 0.05 (measured 0.0009); quick covers all 40 model x integrator pairs "
          "in the repeat scenarios; distinct = distinct scenario records",
-    partial="the classification of the mutable statics (allowlist in SimbodyProofs/C46.lean) is a hand review of the source, not derived; "
-            "the theorem only proves that every writable static-storage object of the rebuilt binaries HAS a reviewed class and that the "
-            "class assumptions imply isolation in the process model; heap-level aliasing between instances, libm/BLAS determinism and the "
-            "OS are outside the model and are covered only by the bitwise trajectory comparison",
+    partial="(i) proved: every writable static-storage object of the rebuilt binaries has a reviewed class (all_statics_classified), every "
+            "static non-const declaration in the sources is in that inventory or a reviewed exception (source_statics_in_inventory), and "
+            "the per-role assumptions computed from the allow-list (ClassAssumptions: frozen objects never written, irrelevant objects never "
+            "read by a result) imply isolation/repeatability in the process model (interleaving_isolated_by_classes, "
+            "repeat_deterministic_by_classes). NOT proved: that the C++ satisfies ClassAssumptions - the class of each object is a hand "
+            "review of the source. (ii) predicate only: bitwise repeat / interleave / fork / aux scenarios. (iii) not covered: heap "
+            "aliasing between instances, libm/BLAS/OS determinism, multi-threaded force evaluation, the Visualizer, ContactId numbers",
     assumptions=[
         "force evaluation single-threaded (GeneralForceSubsystem::setNumberOfThreads(1)); OpenBLAS/LAPACK and libm are deterministic for equal inputs",
         "the translator (readelf/c++filt, checks/C46.py) lists every OBJECT/TLS symbol in .data/.bss/.tdata/.tbss of the three libraries; "
